@@ -12,6 +12,7 @@ import (
 	"pgregory.net/rapid"
 
 	"verifharness/ev"
+	"verifharness/gen"
 	"verifharness/vread"
 )
 
@@ -38,7 +39,7 @@ type egen struct {
 	maxDep int
 }
 
-func (g *egen) pick(label string, n int) int { return rapid.IntRange(0, n-1).Draw(g.t, label) }
+func (g *egen) pick(label string, n int) int { return gen.Uniform(g.t, label, n) }
 
 var vars = map[string][]string{"u64": {"a", "b", "c"}, "u32": {"k", "m"}, "bool": {"p", "q"}, "str": {"s", "t"}}
 
